@@ -7,6 +7,8 @@ import (
 	"net/http"
 	"net/http/httptest"
 	"net/url"
+	"os"
+	"runtime"
 	"strings"
 	"sync"
 	"sync/atomic"
@@ -53,9 +55,14 @@ func run(G int, fn func(g int)) {
 	go func() { wg.Wait(); close(done) }()
 	select {
 	case <-done:
-	case <-time.After(90 * time.Second):
-		// nothing in these workloads waits for anything but the code under test
-		panic("concurrent lookups / requests did not return within 90s: something they call blocks for ever")
+	case <-time.After(60 * time.Second):
+		// nothing in these workloads waits for anything but the code under test; the process ends
+		// here (a panic would make the property library re-run the hanging case over and over)
+		fmt.Println("--- FAIL: concurrent workload (watchdog)")
+		fmt.Println("    concurrent lookups / requests did not return within 60s: something they call blocks for ever")
+		buf := make([]byte, 1<<16)
+		fmt.Printf("%s\n", buf[:runtime.Stack(buf, true)])
+		os.Exit(1)
 	}
 }
 
